@@ -229,6 +229,9 @@ def h_create_type_params(eng, lang):
     variant = [t for t in tps if t.variance != tp.Invariant]
     obs = [Ob('create_type_params|declaration-site-variance-only-in-kotlin-scala', not variant or lang in ('kotlin', 'scala'), case),
            Ob('create_type_params|mapped-parameters-invariant', all(v.variance == tp.Invariant for v in tvm.values()), case)]
+    if shape in (0, 1):
+        # bounded type parameters are disabled and the expected type mentions an unbounded variable only
+        obs.append(Ob('create_type_params|no-bound-when-disabled', all(t.bound is None for t in tps), case))
     obs2, _ = switch_obs('create_type_params', tps, dis_usv, False, case)
     eng.event('created')
     if len(tps) > len(tvm):
